@@ -615,17 +615,25 @@ fn bs(seed: u32) -> BytesSpec {
 pub fn canonical(tier: Tier) -> Vec<CCase> {
     let mut out = vec![];
     let ops = |existing: bool| -> Vec<BReq> {
-        vec![
+        let mut v = vec![
             BReq::AddVersion { parent: if existing { BId::Latest } else { BId::Nil }, data: bs(1) },
             BReq::GetChild { parent: if existing { BId::Ancestor(1) } else { BId::Nil } },
             BReq::AddSnapshot { version: BId::Latest, data: bs(2) },
             BReq::GetSnapshot,
-        ]
+        ];
+        if existing {
+            // the child of the latest version (not-found until somebody appends) and a snapshot
+            // of an older version (must lose against one of a newer version)
+            v.push(BReq::GetChild { parent: BId::Latest });
+            v.push(BReq::AddSnapshot { version: BId::Ancestor(1), data: bs(3) });
+        }
+        v
     };
     let prefix_existing = vec![
         Op::AddVersion { c: 0, parent: case::IdRef::Nil, data: bs(10) },
         Op::AddVersion { c: 0, parent: case::IdRef::Latest(0), data: bs(11) },
         Op::AddSnapshot { c: 0, version: case::IdRef::Ancestor(0, 1), data: bs(12) },
+        Op::AddVersion { c: 0, parent: case::IdRef::Latest(0), data: bs(13) },
     ];
     for conf in [Conf::Mem, Conf::Sqlite1, Conf::SqliteN] {
         for via in [Via::Http, Via::Lib] {
